@@ -13,6 +13,7 @@ ASSUMPTIONS = [
     'value-dependent typing (int ** negative int -> float, bool + bool -> int) is covered by C05 with symbolic ints',
     'operations that raise are outside this property (the elementwise contract is C05); for in-place writes the vector must still be truthful after the exception',
     'complex/bytes/date/datetime/str-subclass/int-subclass elements enter through concrete representatives only',
+    'join result columns are examined with padding on both sides, on one side only and on neither (2-3 row tables with fixed int keys)',
 ]
 
 U = Union[None, bool, int, float]
